@@ -274,6 +274,8 @@ func Run(c *lib.Ctx) {
 		"B-tree range iteration returns exactly the keys within the inclusive bounds (google/btree with a strict weak order, C14)",
 	}
 	c.Trusted = []string{"google/btree (modelled as a sorted association list)", "types.Map internals (C15)"}
+	sg.SelfCheck(c, &fails) // the reference's own order / equality against the value layer's, once per run
+	c.Assumptions = append(c.Assumptions, sg.Independence)
 	ms, err := c.RunModel("c11", sc)
 	if err != nil {
 		c.Violation("model driver failed: "+err.Error(), "", false)
